@@ -563,7 +563,7 @@ def run(chk):
     ph["prove"] = round(time.time() - t0, 1)
     t0 = time.time()
     thorough = chk.thorough
-    n_trees = 420 if thorough else 110
+    n_trees = 400 if thorough else 64
     cases = []
     for c in load_corpus():
         cases.append({"gid": c["gid"], "text": c["text"], "referrers": c["referrers"], "names": c["names"], "probes": c.get("e2e", []),
@@ -715,6 +715,9 @@ def run(chk):
                         "scope_redirection_logic is None (FQN() default); Postponed results cannot occur then",
                         "object tables are dumped through __dict__, type(obj)._tx_attrs and callable() by tools/impl/c10.py",
                         "textx_isinstance is an oracle (conf) in the model; its table is read from the implementation per case"]
+    # smallest inputs first: the replay files then show the simplest failing model
+    failures.sort(key=lambda f: (len(f["case"].get("text", "")) if isinstance(f["case"], dict) else 0))
+    disagreements.sort(key=lambda f: (len(f["case"].get("text", "")) if isinstance(f["case"], dict) else 0))
     decide(chk, failures, disagreements)
 
 
